@@ -51,6 +51,17 @@ Proof.
   apply P_char; [discriminate|]. constructor.
 Qed.
 
+(* tie to the source text: the escape-sequence constants and the width cut-off of the build
+   without unicode-width are the literals found in /repo/src/core.rs on this run
+   (gen/SrcConsts.v is regenerated from the source by tools/gen_src_consts.py) *)
+From TW Require Import SrcConsts SrcConstsFacts.
+Theorem C10_source_constants :
+  src_csi = (ESC, LBRACK) /\
+  (forall c, is_final c = (fst src_ansi_final <=? c) && (c <=? snd src_ansi_final)) /\
+  (forall c, cw_simple c = if c <? src_double_width_cutoff then 1 else 2).
+Proof. exact (conj src_csi_ok (conj src_ansi_final_ok src_cutoff_ok)). Qed.
+Print Assumptions C10_source_constants.
+
 Print Assumptions C10_wellformed.
 Print Assumptions C10_additive.
 Print Assumptions C10_insert.
